@@ -30,10 +30,13 @@ HANDLES = ['filename', 'connection', 'cursor', 'mkcurs']
 EXCS = sorted(probes.FAULT_TYPES)
 REQUIRED = (['handle:' + h for h in HANDLES] + ['fn:todb', 'fn:appenddb', 'commit:True', 'commit:False', 'fail:none', 'fail:header',
             'fail:first-row', 'fail:last-row', 'fail:exhaustion', 'rolled-back-load-left-previous-contents', 'commit=False-invisible-until-caller-commits',
-            'long-load', 'source-read-through-the-same-connection', 'pending-load-read-back-through-the-same-connection', 'roundtrip-typed-cells', 'quoted-identifiers', 'sql-statements-traced', 'schema-qualified', 'fromdb-handle-kinds', 'fromdb-two-readers'] + ['exc:' + e for e in EXCS])
+            'long-load', 'source-read-through-the-same-connection', 'pending-load-read-back-through-the-same-connection', 'roundtrip-typed-cells', 'quoted-identifiers', 'sql-statements-traced', 'database-file-name-with-uri-characters', 'schema-qualified', 'fromdb-handle-kinds', 'fromdb-two-readers'] + ['exc:' + e for e in EXCS])
 EXHAUSTIVE = {'quick': False, 'thorough': False}   # the enumerated families are complete within their bounds, but a seeded random family is judged too
 
 CELLS = [None, 0, 1, -5, 2 ** 40, 1.5, -0.25, '', 'a', "it's", 'say "hi"', 'é€漢', 'x;y', b'', b'\x00\xff', 'NULL', ' lead']
+
+
+DBNAMES = ['c17-%d.db', 'c17-%d.db', 'c17 %d #1?mode=rw&x=%%31.db', 'c17-%d%%41%%2f.db', "c17-%d 'q' é.db"]
 
 
 def cases(ctx):
@@ -126,7 +129,11 @@ def judge(case, ctx):
     if prior and ((fail is not None and fail >= 2) or (fail is None and new)):
         ctx.mark_nontrivial()
 
-    path = os.path.join(ctx.scratch, 'c17-%d.db' % os.getpid())
+    # the database file's name is an ordinary path: characters that mean something in a URI (% # ? & =) or to a shell are part of it
+    dbname = DBNAMES[int(util.fp(sorted(case.items(), key=repr))[:6], 16) % len(DBNAMES)]
+    if dbname != DBNAMES[0]:
+        ctx.seen('database-file-name-with-uri-characters')
+    path = os.path.join(ctx.scratch, dbname % os.getpid())
     for suffix in ('', '-journal', '-wal', '-shm'):
         if os.path.exists(path + suffix):
             os.remove(path + suffix)
